@@ -1,11 +1,13 @@
 package main
 
 import (
+	"crypto/sha256"
 	"encoding/json"
 	"fmt"
 	"io"
 	"os"
 	"path/filepath"
+	"strings"
 	"time"
 	"verif/refcodec"
 
@@ -187,21 +189,31 @@ func (x *Exec) backup(op *Op) {
 			os.MkdirAll(x.bdir, 0o700) // Log.Backup needs the directory; klevdb.Backup creates it
 		}
 	}
-	before := x.digest(x.l, x.obs.KeyQ)
+	// cold (op.Var&2): the backup is the first call on the handle - no query has loaded (or rebuilt) anything yet
+	cold := op.Var&2 != 0
+	var before []string
+	if !cold {
+		before = x.digest(x.l, x.obs.KeyQ)
+	}
+	files0 := dirContentSig(x.dir)
 	var err error
 	if op.Var%2 == 0 {
 		err = x.l.Backup(x.bdir)
 	} else {
 		err = klevdb.Backup(x.dir, x.bdir)
 	}
-	x.emit("backup", map[string]any{"err": errClass(err), "errs": errStr(err), "pkg": op.Var%2 == 1, "fresh": op.Arg == 1})
+	files1 := dirContentSig(x.dir)
+	x.emit("backup", map[string]any{"err": errClass(err), "errs": errStr(err), "pkg": op.Var%2 == 1, "fresh": op.Arg == 1, "cold": cold})
 	if err != nil {
 		return
 	}
+	x.emit("same", map[string]any{"a": files0, "b": files1, "what": "source directory (names, sizes, bytes) unchanged by backup"})
 	after := x.digest(x.l, x.obs.KeyQ)
-	ja, _ := json.Marshal(before)
 	jb, _ := json.Marshal(after)
-	x.emit("same", map[string]any{"a": string(ja), "b": string(jb), "what": "source unchanged by backup", "diff": firstDiff(before, after)})
+	if !cold {
+		ja, _ := json.Marshal(before)
+		x.emit("same", map[string]any{"a": string(ja), "b": string(jb), "what": "source unchanged by backup", "diff": firstDiff(before, after)})
+	}
 	// the target: Check, then open a copy of it (so that the target itself stays as Backup left it)
 	cerr := klevdb.Check(x.bdir, klevdb.Options{KeyIndex: x.h.Keys, TimeIndex: x.h.Times})
 	tmp := x.bdir + "-open"
@@ -326,4 +338,18 @@ func (x *Exec) backupClosed(op *Op) {
 	next, _ := l2.NextOffset()
 	x.emit("backupobs", map[string]any{"err": serr, "errs": "", "check": errClass(cerr), "checks": errStr(cerr), "msgs": x.conv(all), "next": next})
 	l2.Close()
+}
+
+// dirContentSig: every file of a directory by name, size and content hash (the lock file aside).
+func dirContentSig(dir string) string {
+	es, _ := os.ReadDir(dir)
+	var sb strings.Builder
+	for _, e := range es {
+		if e.IsDir() || e.Name() == ".lock" {
+			continue
+		}
+		b, _ := os.ReadFile(filepath.Join(dir, e.Name()))
+		fmt.Fprintf(&sb, "%s:%d:%x ", e.Name(), len(b), sha256.Sum256(b))
+	}
+	return sb.String()
 }
